@@ -27,14 +27,16 @@ ASSUMPTIONS = ["a thread switch inside a single C call (deque.append, dict get/s
                "happen at line boundaries of the transport modules, including inside the defaultdict factory lambda",
                "per-consumer order only: cross-consumer receive order is not observable without perturbing the schedule"]
 REQUIRED_PROBES = ["switch_inside_transport", "two_publishers_same_fresh_channel", "wildcard_subscription", "callback_mode",
-                   "subscription_closed_early", "subscription_closed_by_other_task"]
+                   "subscription_closed_early", "subscription_closed_by_other_task",
+                   "transport_closed_and_reconnected"]
 CONFIG = {
     "quick": {"runs": 60000, "budget_s": 240, "timeout_s": 20, "per_fork": 25},
     "thorough": {"runs": 3000000, "budget_s": 1500, "timeout_s": 20, "per_fork": 50},
     "shrink_s": 40.0,
 }
 TARGETS = ("execution/transport/in_memory.py", "execution/transport/base.py")
-CHANNELS = ["jobs.a.cfg", "jobs.b.cfg", "jobs.a.status", "data.x", "data.y"]
+CHANNELS = ["jobs.a.cfg", "jobs.b.cfg", "jobs.a.status", "data.x", "data.y",
+            "retry.jobs.a.cfg", "xdata.x", "jobs.a.cfg.bak"]        # names that contain other names / patterns as a suffix or prefix
 PATTERNS = ["*", "jobs.*", "jobs.*.cfg", "jobs.a.*", "data.?", "jobs.a.cfg", "data.x", "data.[xy]", "jobs.?.cfg", "jobs.[ab].status"]
 
 
@@ -62,6 +64,7 @@ def generate(rng: random.Random, tier: str, seed: int) -> dict:
                      "close_after": rng.choice([None, None, None, 1, 2]),    # close() the subscription after k messages
                      "closer": rng.random() < 0.2})                            # ANOTHER task close()s the subscription at some point
     return {"existing": existing, "pubs": pubs, "subs": subs, "strategy": rng.choice(threads.STRATEGIES),
+            "reconnect": rng.random() < 0.15,       # some task calls the documented no-ops close() / connect() on the shared transport
             "sched_seed": rng.getrandbits(48), "choices": None}
 
 
@@ -132,6 +135,13 @@ def execute(sc: dict, seed: int) -> dict:
             sched.spawn(f"pub{i}", publisher(i, chans))
         for i, spec in enumerate(sc["subs"]):
             sched.spawn(f"sub{i}", subscriber(i, spec))
+        if sc.get("reconnect"):
+            def reconnector():
+                threads.sim_sleep(0.0004)
+                tr.close()           # "No real cleanup needed for in-memory" - another participant shutting down
+                tr.connect()
+                sched.probe("transport_closed_and_reconnected")
+            sched.spawn("reconnector", reconnector)
         outcome = sched.run(wall_timeout=15.0)
         # final drain (single-threaded, after all tasks finished)
         drained = []
@@ -201,6 +211,8 @@ def execute(sc: dict, seed: int) -> dict:
         stats["probe.wildcard_subscription"] = 1
     if any(s["callback"] for s in sc["subs"]):
         stats["probe.callback_mode"] = 1
+    if sched.probes.get("transport_closed_and_reconnected"):
+        stats["probe.transport_closed_and_reconnected"] = 1
     if sched.probes.get("closed_by_other_task"):
         stats["probe.subscription_closed_by_other_task"] = 1
     if sched.probes.get("early_close"):
@@ -250,6 +262,8 @@ def _structural_candidates(sc: dict):
                 yield dict(sc, pubs=sc["pubs"][:i] + [p[:j] + p[j + 1:]] + sc["pubs"][i + 1:])
     if sc["existing"]:
         yield dict(sc, existing=[])
+    if sc.get("reconnect"):
+        yield dict(sc, reconnect=False)
     for i, s in enumerate(sc["subs"]):
         if s["rounds"] > 1 or s["callback"] or s["pause"] or s.get("close_after") or s.get("closer"):
             yield dict(sc, subs=sc["subs"][:i] + [dict(s, rounds=1, callback=False, pause=0.0, close_after=None, closer=False)] + sc["subs"][i + 1:])
